@@ -286,3 +286,125 @@ def _is_self_container(e: ast.AST) -> bool:
     while isinstance(e, ast.Subscript):
         e = e.value
     return isinstance(e, ast.Attribute) and isinstance(e.value, ast.Name) and e.value.id == "self"
+
+
+PROJECTIONS = {"key", "parent", "children", "shifts", "bucket"}
+
+
+def e9_every_key_is_filed(ctx) -> None:
+    """_sorted_stable_rules files *every* key of the pumping sub-universe in its bucket.  Two
+    keys that agree on a projection (parent and children) but differ in shifts or bucket are
+    different rules; skipping on a projection loses the one inserted later, which may be the
+    only productive / reverse-free one.  A skip on the whole key (exact duplicates) is fine."""
+    P = ctx.P
+    m = P.need_method(EX, "_sorted_stable_rules", own=True)
+    f = m.node
+    ctx.analysed(m)
+    n = 0
+    for loop in walk_local(f):
+        if not isinstance(loop, ast.For) or "pumping_subuniverse()" not in norm(loop.iter):
+            continue
+        if not isinstance(loop.target, ast.Name):
+            raise AnalysisError(f"{m.qualname}: loop target over the pumping sub-universe is not a plain name")
+        v = loop.target.id
+        appends = [c for c in walk_local(loop) if isinstance(c, ast.Call) and isinstance(c.func, ast.Attribute) and c.func.attr == "append"
+                   and len(c.args) == 1 and isinstance(c.args[0], ast.Name) and c.args[0].id == v]
+        if not appends:
+            ctx.violation("E9", loop, f"{m.qualname}: the keys of the pumping sub-universe are no longer appended to a bucket as they are")
+            n += 1
+            continue
+        for ap in appends:
+            n += 1
+            bad = False
+            for t, _pol in C.flatten_guards(C.guards(f, ap, within=loop)):
+                names = {x.id for x in ast.walk(t) if isinstance(x, ast.Name)}
+                if v not in names:
+                    continue
+                proj = sorted({a.attr for a in ast.walk(t) if isinstance(a, ast.Attribute) and isinstance(a.value, ast.Name) and a.value.id == v and a.attr in PROJECTIONS})
+                whole = any(isinstance(c, ast.Compare) and isinstance(c.left, ast.Name) and c.left.id == v and len(c.ops) == 1 and isinstance(c.ops[0], (ast.In, ast.NotIn))
+                            for c in ast.walk(t))
+                if proj:
+                    bad = True
+                    ctx.violation("E9", t, f"{m.qualname}: a key of the pumping sub-universe is filed only under a test on its projection(s) {proj}: "
+                                  "two keys with the same classes but other shifts / bucket are different rules, and the one met later is lost")
+                elif whole:
+                    continue
+                else:
+                    raise AnalysisError(f"{m.qualname}: filing of `{v}` guarded by `{norm(t)}`, which is not understood")
+            if not bad:
+                ctx.ok("E9", f"{m.qualname}: every key is appended to res[<its bucket>] (no projection-based skip)")
+    if n < 1:
+        ctx.floor("E9", 99)
+
+
+# Parameters whose every admissible argument decides the same thing: a memo may ignore them.
+ORACLE_PARAMS = {
+    "is_empty": "every admissible argument decides emptiness of the class; the answer does not depend on who is asked",
+}
+
+
+def e10_memo_keyed_by_arguments(ctx, modules=None) -> None:
+    """A value stored on `self` under the memo idiom (`if self.x is None: self.x = v; return self.x`)
+    must not depend on the method's arguments: the second call would get the first call's
+    answer.  forest_key(get_label, is_empty) in particular depends on the class database of
+    the searcher that asks (rules are re-keyed by a second searcher after expand_verified and
+    through rule_cache)."""
+    P = ctx.P
+    n = 0
+    for fi in P.all_functions():
+        f = fi.node
+        if not fi.cls or not isinstance(f, ast.FunctionDef):
+            continue
+        params = [p for p in D.param_names(f) if p not in ("self", "cls")]
+        defs = D.definitions(f)
+
+        def deps(e, depth=0, seen=None):
+            out = set()
+            for x in ast.walk(e):
+                if isinstance(x, ast.Name):
+                    if x.id in params:
+                        out.add(x.id)
+                    elif x.id in defs and depth < 6:
+                        for d in defs[x.id]:
+                            if d[1] is not None and d[1] is not e:
+                                out |= deps(d[1], depth + 1)
+            return out
+
+        for st in walk_local(f):
+            if not isinstance(st, (ast.Assign, ast.AnnAssign)) or st.value is None:
+                continue
+            tg = st.targets if isinstance(st, ast.Assign) else [st.target]
+            for t in tg:
+                if not is_self_attr(t):
+                    continue
+                memo = [g for g in C.flatten_guards(C.guards(f, st)) if g[1] and _is_none_test(g[0], norm(t))]
+                if not memo:
+                    continue
+                n += 1
+                ctx.analysed(fi)
+                d = sorted(deps(st.value) - set(ORACLE_PARAMS))
+                if d:
+                    ctx.violation("E10", st, f"{fi.qualname}: `{norm(t)}` is filled once (under `{norm(memo[0][0])}`) with a value that depends on the argument(s) {d}: "
+                                  "a later call with other arguments is answered from the first call's arguments")
+                else:
+                    ctx.ok("E10", f"{fi.qualname}: memo `{norm(t)}` does not depend on the arguments")
+    # forest_key itself: what it returns is built in the call
+    k = 0
+    for fi in P.all_functions():
+        if fi.name != "forest_key" or not fi.cls:
+            continue
+        rets = [r for r in C.returns_of(fi.node) if r.value is not None]
+        for r in rets:
+            k += 1
+            v = D.resolve(D.definitions(fi.node), r.value)
+            if is_self_attr(v) or (isinstance(v, ast.Attribute) and not isinstance(v, ast.Call)):
+                ctx.violation("E10", r, f"{fi.qualname} returns stored state `{norm(v)}` instead of a key computed with the get_label it was handed")
+            else:
+                ctx.ok("E10", f"{fi.qualname}: the key returned is computed in the call")
+    if n < 4 or k < 3:
+        ctx.floor("E10", 99)
+
+
+def _is_none_test(t: ast.AST, target: str) -> bool:
+    return (isinstance(t, ast.Compare) and len(t.ops) == 1 and isinstance(t.ops[0], ast.Is) and norm(t.left) == target
+            and isinstance(t.comparators[0], ast.Constant) and t.comparators[0].value is None)
